@@ -6,6 +6,7 @@ index down by exactly that restriction (`applyRestriction_spec`, `foldRestrictio
 import DnaModel.Model.Space
 import DnaModel.Proofs.Merge
 import DnaModel.Proofs.Split
+import Mathlib.Data.List.Nodup
 set_option linter.unusedVariables false
 set_option linter.unusedSimpArgs false
 namespace Dna.Fold
@@ -289,11 +290,164 @@ theorem extract_more (c : Choice) (hlen : ∀ v ∈ c.variants, v.length = c.sto
       · rcases hp with rfl | rfl <;> simp <;> omega
       · subst hp; simp; omega
 
+theorem mem_dedup' {α : Type} [BEq α] [LawfulBEq α] (l : List α) (x : α) : x ∈ dedup l ↔ x ∈ l := by
+  induction l with
+  | nil => simp [dedup]
+  | cons a as ih =>
+    simp only [dedup]
+    split
+    · rename_i hc
+      rw [ih]
+      constructor
+      · intro h; exact List.mem_cons_of_mem _ h
+      · intro h
+        rcases List.mem_cons.1 h with rfl | h
+        · simpa using hc
+        · exact h
+    · simp [ih]
+
+
+theorem dedup_nodup {α : Type} [BEq α] [LawfulBEq α] (l : List α) : (dedup l).Nodup := by
+  induction l with
+  | nil => simp [dedup]
+  | cons a as ih =>
+    simp only [dedup]
+    split
+    · exact ih
+    · rename_i hc
+      refine List.nodup_cons.2 ⟨?_, ih⟩
+      rw [mem_dedup']
+      simpa using hc
+
+
+theorem flatten_inj (os : List Choice) (a b : List Seq)
+    (ha : List.Forall₂ (fun p o => p.length = o.stop - o.start) a os)
+    (hb : List.Forall₂ (fun p o => p.length = o.stop - o.start) b os) (h : a.flatten = b.flatten) : a = b := by
+  induction ha generalizing b with
+  | nil => cases hb; rfl
+  | @cons p o ps os' hp _ ih =>
+    cases hb with
+    | @cons q _ qs _ hq hqs =>
+      simp only [List.flatten_cons] at h
+      have hpq : p = q := by
+        have := congrArg (List.take p.length) h
+        rw [List.take_left' rfl, List.take_left' (by omega)] at this
+        exact this
+      subst hpq
+      rw [List.append_cancel_left h |> ih qs hqs]
+
+theorem mergeCore_nodup (self : Choice) (ostart : Nat) (others : List Choice)
+    (hs : self.variants.Nodup) (ho : ∀ o ∈ others, o.variants.Nodup)
+    (hov : ∀ o ∈ others, ∀ v ∈ o.variants, v.length = o.stop - o.start) :
+    (mergeCore self ostart others).Nodup := by
+  simp only [mergeCore]
+  rw [List.nodup_flatMap]
+  constructor
+  · intro cand _
+    have hcart : (cartesian (others.map (compatSlot self cand))).Nodup := by
+      apply Cart.nodup_cartesian
+      intro l hl
+      simp only [List.mem_map] at hl
+      obtain ⟨o, hom, rfl⟩ := hl
+      exact (ho o hom).filter _
+    have hp := List.Pairwise.and_mem.1 hcart
+    refine List.Pairwise.filterMap _ ?_ hp
+    rintro a a' ⟨ha, ha', hne⟩ b hb b' hb'
+    intro hbb
+    apply hne
+    have la : List.Forall₂ (fun p o => p.length = o.stop - o.start) a others := by
+      have := (Cart.mem_cartesian _ _).1 ha
+      rw [List.forall₂_map_right_iff] at this
+      exact lengths_of_mem others a hov (this.imp (fun p o hp => (List.mem_filter.1 hp).1))
+    have la' : List.Forall₂ (fun p o => p.length = o.stop - o.start) a' others := by
+      have := (Cart.mem_cartesian _ _).1 ha'
+      rw [List.forall₂_map_right_iff] at this
+      exact lengths_of_mem others a' hov (this.imp (fun p o hp => (List.mem_filter.1 hp).1))
+    apply flatten_inj others a a' la la'
+    split at hb <;> split at hb' <;> simp_all
+  · refine hs.imp ?_
+    intro c1 c2 hne
+    simp only [Function.onFun, List.disjoint_left, List.mem_filterMap]
+    rintro x ⟨u, _, hu⟩ ⟨v, _, hv⟩
+    split at hu <;> split at hv <;> simp_all
+
+
+/-- the pieces of a duplicate-free choice are duplicate-free -/
+theorem extract_nodup (c : Choice) (hlen : ∀ v ∈ c.variants, v.length = c.stop - c.start) (hnd : c.variants.Nodup) :
+    ∀ p ∈ c.extractVaryingRegion, p.variants.Nodup := by
+  rcases hv : c.variants with _ | ⟨reference, _ | ⟨second, more⟩⟩
+  · have : c.extractVaryingRegion = [c] := by unfold extractVaryingRegion; rw [hv]
+    rw [this]; simp [hv]
+  · have : c.extractVaryingRegion = [c] := by unfold extractVaryingRegion; rw [hv]
+    rw [this]; simp [hv]
+  · have hrl : reference.length = c.stop - c.start := hlen reference (by simp [hv])
+    have hex : c.extractVaryingRegion =
+        match varyingColumns reference (second :: more) with
+        | none => [c]
+        | some (st, en) =>
+          (if st > 0 then [{ start := c.start, stop := c.start + st, variants := [reference.take st] }] else []) ++
+          [{ start := c.start + st, stop := c.start + en,
+             variants := c.variants.map (fun v => (v.drop st).take (en - st)) }] ++
+          (if en < reference.length then
+            [{ start := c.start + en, stop := c.stop, variants := [reference.drop en] }] else []) := by
+      unfold extractVaryingRegion
+      rw [hv]
+      simp only []
+      rw [← hv]
+      rcases varyingColumns reference (second :: more) with _ | ⟨a, b⟩ <;> rfl
+    rw [hex]
+    cases hcol : varyingColumns reference (second :: more) with
+    | none =>
+      intro p hp
+      simp only [List.mem_singleton] at hp; subst hp; exact hnd
+    | some ab =>
+      obtain ⟨a, b⟩ := ab
+      obtain ⟨hab, hbl, _, _, hout⟩ := varyingColumns_spec reference (second :: more) a b hcol
+      simp only []
+      have hagree : ∀ v ∈ c.variants, ∀ i, i < reference.length → (i < a ∨ b ≤ i) → v[i]? = reference[i]? := by
+        intro v hvm i hi hio
+        rw [hv] at hvm
+        rcases List.mem_cons.1 hvm with rfl | hvm
+        · rfl
+        · exact hout i hi hio v hvm
+      have hmid : (c.variants.map (fun v => (v.drop a).take (b - a))).Nodup := by
+        refine List.Nodup.map_on ?_ hnd
+        intro x hx y hy hxy
+        have lx : x.length = reference.length := by rw [hlen x hx, hrl]
+        have ly : y.length = reference.length := by rw [hlen y hy, hrl]
+        have t1 : x.take a = y.take a := by
+          rw [take_eq_of_cols x reference a lx (fun i hi hia => hagree x hx i hi (Or.inl hia)),
+            take_eq_of_cols y reference a ly (fun i hi hia => hagree y hy i hi (Or.inl hia))]
+        have d1 : x.drop b = y.drop b := by
+          rw [drop_eq_of_cols x reference b lx (fun i hi hib => hagree x hx i hi (Or.inr hib)),
+            drop_eq_of_cols y reference b ly (fun i hi hib => hagree y hy i hi (Or.inr hib))]
+        rw [← three_parts x a b (by omega), ← three_parts y a b (by omega), t1, d1]
+        rw [hxy]
+      intro p hp
+      by_cases ha : a > 0 <;> by_cases hb : b < reference.length <;>
+        simp only [ha, hb, if_true, if_false, List.nil_append, List.append_nil, List.cons_append, List.singleton_append,
+          List.mem_cons, List.mem_singleton, List.not_mem_nil, or_false] at hp
+      · rcases hp with rfl | rfl | rfl
+        · simp
+        · exact hmid
+        · simp
+      · rcases hp with rfl | rfl
+        · simp
+        · exact hmid
+      · rcases hp with rfl | rfl
+        · exact hmid
+        · simp
+      · subst hp; exact hmid
+
+
+/-- every choice written in the index has pairwise distinct variants -/
+def VarsNodup (idx : Idx) : Prop := ∀ (i : Nat) (c : Choice), idx[i]? = some (some c) → c.variants.Nodup
+
 /-- **writing a merged choice back**: if `nc` spans whole blocks of the index and accepts exactly the words accepted
     by those blocks and by the new restriction, the index after the write-back is again made of whole blocks and
     accepts exactly the words the old index and the restriction accept -/
 theorem writeBack_spec (idx : Idx) (nc : Choice) (R : Seq → Prop)
-    (hB : Blocks idx) (hF : Full idx)
+    (hB : Blocks idx) (hF : Full idx) (hN : VarsNodup idx) (p6 : nc.variants.Nodup)
     (p1 : nc.start < nc.stop) (p1' : nc.stop ≤ idx.length)
     (p2 : ∀ v ∈ nc.variants, v.length = nc.stop - nc.start)
     (p3 : nc.anyNuc = false)
@@ -302,7 +456,7 @@ theorem writeBack_spec (idx : Idx) (nc : Choice) (R : Seq → Prop)
     (p5 : ∀ t : Seq, t.length = idx.length → (∀ ch ∈ t, ch ∈ DNA) →
       (nc.seg t ∈ nc.variants ↔ (R t ∧ ∀ (j : Nat) (c : Choice), nc.start ≤ j → j < nc.stop → idx[j]? = some (some c) → c.seg t ∈ c.variants))) :
     let idx' := writeAll nc.extractVaryingRegion idx
-    Blocks idx' ∧ Full idx' ∧ idx'.length = idx.length ∧
+    Blocks idx' ∧ Full idx' ∧ VarsNodup idx' ∧ idx'.length = idx.length ∧
     ∀ t : Seq, t.length = idx.length → (∀ ch ∈ t, ch ∈ DNA) → (Accepts idx' t ↔ Accepts idx t ∧ R t) := by
   intro idx'
   obtain ⟨t1, t2, t3⟩ := extractVaryingRegion_tiles nc p2 (by omega)
@@ -352,7 +506,17 @@ theorem writeBack_spec (idx : Idx) (nc : Choice) (R : Seq → Prop)
       exact ⟨p, hp3⟩
     · rw [hout i (by omega)]
       exact hF i hi
-  refine ⟨hBlocks, hFull, w1, ?_⟩
+  have hNodup : VarsNodup idx' := by
+    intro i c hc
+    by_cases hi : nc.start ≤ i ∧ i < nc.stop
+    · obtain ⟨p, hp, _, _, hp3⟩ := hin i hi.1 hi.2
+      rw [hp3] at hc
+      have : p = c := by simpa using hc
+      subst this
+      exact extract_nodup nc p2 p6 p hp
+    · rw [hout i (by omega)] at hc
+      exact hN i c hc
+  refine ⟨hBlocks, hFull, hNodup, w1, ?_⟩
   intro t ht hdna
   have hlang := extractVaryingRegion_language nc t p2 (by omega)
   have h5 := p5 t ht hdna
@@ -386,22 +550,6 @@ end Dna.Fold
 namespace Dna.Fold
 open Dna Choice Merge Space Split
 
-theorem mem_dedup' {α : Type} [BEq α] [LawfulBEq α] (l : List α) (x : α) : x ∈ dedup l ↔ x ∈ l := by
-  induction l with
-  | nil => simp [dedup]
-  | cons a as ih =>
-    simp only [dedup]
-    split
-    · rename_i hc
-      rw [ih]
-      constructor
-      · intro h; exact List.mem_cons_of_mem _ h
-      · intro h
-        rcases List.mem_cons.1 h with rfl | h
-        · simpa using hc
-        · exact h
-    · simp [ih]
-
 theorem contig_sorted' (a : Nat) (os : List Choice) (h : Contig a os) :
     os.Pairwise (fun x y => (decide (x.start ≤ y.start)) = true) := by
   induction os generalizing a with
@@ -429,14 +577,14 @@ theorem mergeWith_spec (self : Choice) (first : Choice) (rest : List Choice)
     (h3 : self.stop ≤ stopOf first.start (first :: rest))
     (hov : ∀ o ∈ first :: rest, ∀ v ∈ o.variants, v.length = o.stop - o.start) :
     ∃ m, self.mergeWith (first :: rest) = some m ∧ m.start = first.start ∧ m.stop = stopOf first.start (first :: rest) ∧
-      m.anyNuc = false ∧
+      m.anyNuc = false ∧ m.variants = mergeCore self first.start (first :: rest) ∧
       ∀ sq, sq ∈ m.variants ↔
         sq.length = m.stop - m.start ∧ sl sq (self.start - m.start) (self.stop - self.start) ∈ self.variants ∧
         ∀ o ∈ first :: rest, sl sq (o.start - m.start) (o.stop - o.start) ∈ o.variants := by
   have hsorted : (first :: rest).mergeSort (fun a b => decide (a.start ≤ b.start)) = first :: rest :=
     List.mergeSort_of_pairwise (contig_sorted' first.start _ hc)
   obtain ⟨l, hl1, _, hl2⟩ := stopOf_last first rest
-  refine ⟨{ start := first.start, stop := l.stop, variants := mergeCore self first.start (first :: rest) }, ?_, rfl, hl2, rfl, ?_⟩
+  refine ⟨{ start := first.start, stop := l.stop, variants := mergeCore self first.start (first :: rest) }, ?_, rfl, hl2, rfl, rfl, ?_⟩
   · simp only [mergeWith, hsorted, List.head?_cons, hl1]
   · intro sq
     simp only
@@ -453,10 +601,10 @@ theorem seg_single (t : Seq) (c : Choice) (h : c.stop = c.start + 1) (hl : c.sta
 /-- **one restriction of `from_optimization_problem`**: processing a restriction keeps the index made of whole blocks
     and cuts its language down by exactly the restriction -/
 theorem applyRestriction_spec (idx : Idx) (r : Restriction) (idx' : Idx)
-    (hB : Blocks idx) (hF : Full idx) (h1 : r.start < r.stop) (h2 : r.stop ≤ idx.length)
+    (hB : Blocks idx) (hF : Full idx) (hN : VarsNodup idx) (h1 : r.start < r.stop) (h2 : r.stop ≤ idx.length)
     (hlen : ∀ v ∈ r.variants, v.length = r.stop - r.start)
     (h : applyRestriction idx r = .ok idx') :
-    Blocks idx' ∧ Full idx' ∧ idx'.length = idx.length ∧
+    Blocks idx' ∧ Full idx' ∧ VarsNodup idx' ∧ idx'.length = idx.length ∧
     ∀ t : Seq, t.length = idx.length → (∀ ch ∈ t, ch ∈ DNA) →
       (Accepts idx' t ↔ Accepts idx t ∧ sl t r.start (r.stop - r.start) ∈ r.variants) := by
   obtain ⟨c0, rest, hc0, hU, hcon, hstop, hallU⟩ := under_runs idx hB hF (r.stop - r.start) r.start r.stop (Nat.le_refl _) h1 h2
@@ -513,7 +661,7 @@ theorem applyRestriction_spec (idx : Idx) (r : Restriction) (idx' : Idx)
       have := hany (some c) (hblock j hj1 hj2 c hc)
       simpa using this
     have := writeBack_spec idx { start := r.start, stop := r.stop, variants := dedup r.variants }
-      (fun t => sl t r.start (r.stop - r.start) ∈ r.variants) hB hF h1 h2
+      (fun t => sl t r.start (r.stop - r.start) ∈ r.variants) hB hF hN (dedup_nodup _) h1 h2
       (by intro v hv; exact hlen v ((mem_dedup' _ _).1 hv)) rfl
       (by
         intro j c hc
@@ -543,7 +691,7 @@ theorem applyRestriction_spec (idx : Idx) (r : Restriction) (idx' : Idx)
   · -- some underlying choice is a real one: merge
     rename_i hany
     rw [hunder, hU] at hnc
-    obtain ⟨m, hm, hms, hme, hmany, hmv⟩ := mergeWith_spec { start := r.start, stop := r.stop, variants := dedup r.variants } c0 rest
+    obtain ⟨m, hm, hms, hme, hmany, hmvar, hmv⟩ := mergeWith_spec { start := r.start, stop := r.stop, variants := dedup r.variants } c0 rest
       hcon ok0.lo (by simp only; omega) hstop (fun o ho => (hB o.start o (hallU o ho).1).len)
     rw [hm] at hnc
     have hncm : nc = m := by injection hnc with hnc; exact hnc.symm
@@ -562,7 +710,11 @@ theorem applyRestriction_spec (idx : Idx) (r : Restriction) (idx' : Idx)
       rw [hc] at this
       have : c = o := by simpa using this
       rw [this]; exact ho
-    have := writeBack_spec idx m (fun t => sl t r.start (r.stop - r.start) ∈ r.variants) hB hF
+    have hmnd : m.variants.Nodup := by
+      rw [hmvar]
+      exact mergeCore_nodup _ _ _ (dedup_nodup _) (fun o ho => hN o.start o (hallU o ho).1)
+        (fun o ho => (hB o.start o (hallU o ho).1).len)
+    have := writeBack_spec idx m (fun t => sl t r.start (r.stop - r.start) ∈ r.variants) hB hF hN hmnd
       (by have := ok0.lo; omega) (by omega)
       (by intro v hv; exact ((hmv v).1 hv).1) hmany
       (by
@@ -619,24 +771,24 @@ def Allowed (rs : List Restriction) (t : Seq) : Prop :=
   ∀ r ∈ rs, sl t r.start (r.stop - r.start) ∈ r.variants
 
 theorem foldRestrictions_spec (rs : List Restriction) (idx idx' : Idx)
-    (hB : Blocks idx) (hF : Full idx) (hrs : ∀ r ∈ rs, RestrOK idx.length r)
+    (hB : Blocks idx) (hF : Full idx) (hN : VarsNodup idx) (hrs : ∀ r ∈ rs, RestrOK idx.length r)
     (h : foldRestrictions rs idx = .ok idx') :
-    Blocks idx' ∧ Full idx' ∧ idx'.length = idx.length ∧
+    Blocks idx' ∧ Full idx' ∧ VarsNodup idx' ∧ idx'.length = idx.length ∧
     ∀ t : Seq, t.length = idx.length → (∀ ch ∈ t, ch ∈ DNA) → (Accepts idx' t ↔ Accepts idx t ∧ Allowed rs t) := by
   induction rs generalizing idx with
   | nil =>
     simp only [foldRestrictions, Except.ok.injEq] at h
     subst h
-    exact ⟨hB, hF, rfl, fun t _ _ => by simp [Allowed]⟩
+    exact ⟨hB, hF, hN, rfl, fun t _ _ => by simp [Allowed]⟩
   | cons r rs ih =>
     simp only [foldRestrictions] at h
     split at h
     · cases h
     · rename_i idx1 h1
       obtain ⟨r1, r2, r3⟩ := hrs r (by simp)
-      obtain ⟨b1, f1, l1, a1⟩ := applyRestriction_spec idx r idx1 hB hF r1 r2 r3 h1
-      obtain ⟨b2, f2, l2, a2⟩ := ih idx1 b1 f1 (fun q hq => by rw [l1]; exact hrs q (by simp [hq])) h
-      refine ⟨b2, f2, by rw [l2, l1], ?_⟩
+      obtain ⟨b1, f1, n1, l1, a1⟩ := applyRestriction_spec idx r idx1 hB hF hN r1 r2 r3 h1
+      obtain ⟨b2, f2, n2, l2, a2⟩ := ih idx1 b1 f1 n1 (fun q hq => by rw [l1]; exact hrs q (by simp [hq])) h
+      refine ⟨b2, f2, n2, by rw [l2, l1], ?_⟩
       intro t ht hdna
       rw [a2 t (by rw [l1]; exact ht) hdna, a1 t ht hdna]
       simp only [Allowed, List.mem_cons, forall_eq_or_imp]
@@ -654,10 +806,10 @@ theorem optAll_eq_some {α : Type} (l : List (Option α)) (r : List α) (h : opt
       rw [ih r' hr']; rfl
 
 theorem lookup_anyNuc (c : Char) (vs : List Char) (h : lookup c Gen.anyNucleotideVariants = some vs) :
-    ∀ ch ∈ DNA, ch ∈ vs := by
+    vs.Nodup ∧ ∀ ch ∈ DNA, ch ∈ vs := by
   simp only [Gen.anyNucleotideVariants, lookup] at h
   repeat' split at h
-  all_goals (cases h <;> (intro ch hch; simp [DNA] at hch ⊢; tauto))
+  all_goals (cases h <;> (refine ⟨by decide, ?_⟩; intro ch hch; simp [DNA] at hch ⊢; tauto))
 
 theorem initialIndex_entry (s : Seq) (idx : Idx) (h : initialIndex s = some idx) (i : Nat) (hi : i < s.length) :
     ∃ vs, lookup s[i] Gen.anyNucleotideVariants = some vs ∧
@@ -684,13 +836,13 @@ theorem initialIndex_entry (s : Seq) (idx : Idx) (h : initialIndex s = some idx)
       rw [← h1]
 
 theorem initialIndex_spec (s : Seq) (idx : Idx) (h : initialIndex s = some idx) :
-    Blocks idx ∧ Full idx ∧ idx.length = s.length ∧ ∀ t : Seq, t.length = s.length → (∀ ch ∈ t, ch ∈ DNA) → Accepts idx t := by
+    Blocks idx ∧ Full idx ∧ VarsNodup idx ∧ idx.length = s.length ∧ ∀ t : Seq, t.length = s.length → (∀ ch ∈ t, ch ∈ DNA) → Accepts idx t := by
   have hmap := optAll_eq_some _ _ h
   have hlen : idx.length = s.length := by
     have := congrArg List.length hmap
     simpa using this.symm
   have hget : ∀ (i : Nat) (c : Choice), idx[i]? = some (some c) →
-      i < s.length ∧ c.start = i ∧ c.stop = i + 1 ∧ c.anyNuc = true ∧ ∃ vs : List Char, c.variants = vs.map (fun x => [x]) ∧ ∀ ch ∈ DNA, ch ∈ vs := by
+      i < s.length ∧ c.start = i ∧ c.stop = i + 1 ∧ c.anyNuc = true ∧ ∃ vs : List Char, c.variants = vs.map (fun x => [x]) ∧ vs.Nodup ∧ ∀ ch ∈ DNA, ch ∈ vs := by
     intro i c hc
     have hi : i < s.length := by
       rw [← hlen]
@@ -701,10 +853,10 @@ theorem initialIndex_spec (s : Seq) (idx : Idx) (h : initialIndex s = some idx) 
     have : c = { start := i, stop := i + 1, variants := vs.map (fun x => [x]), anyNuc := true } := by
       simpa using hvs2
     subst this
-    exact ⟨hi, rfl, rfl, rfl, vs, rfl, lookup_anyNuc _ _ hvs1⟩
-  refine ⟨?_, ?_, hlen, ?_⟩
+    exact ⟨hi, rfl, rfl, rfl, vs, rfl, (lookup_anyNuc _ _ hvs1).1, (lookup_anyNuc _ _ hvs1).2⟩
+  refine ⟨?_, ?_, ?_, hlen, ?_⟩
   · intro i c hc
-    obtain ⟨hi, e1, e2, e3, vs, e4, e5⟩ := hget i c hc
+    obtain ⟨hi, e1, e2, e3, vs, e4, _, e5⟩ := hget i c hc
     refine ⟨by omega, by omega, by omega, ?_, ?_, ?_⟩
     · intro j hj1 hj2
       have : j = i := by omega
@@ -722,8 +874,12 @@ theorem initialIndex_spec (s : Seq) (idx : Idx) (h : initialIndex s = some idx) 
   · intro i hi
     obtain ⟨vs, _, hvs2⟩ := initialIndex_entry s idx h i (by omega)
     exact ⟨_, hvs2⟩
+  · intro i c hc
+    obtain ⟨hi, e1, e2, e3, vs, e4, e4', e5⟩ := hget i c hc
+    rw [e4]
+    exact e4'.map (fun x y hxy => by simpa using hxy)
   · intro t ht hdna i c hc
-    obtain ⟨hi, e1, e2, e3, vs, e4, e5⟩ := hget i c hc
+    obtain ⟨hi, e1, e2, e3, vs, e4, _, e5⟩ := hget i c hc
     obtain ⟨ch, hch, hseg⟩ := seg_single t c (by omega) (by omega)
     rw [hseg, e4]
     simp only [List.mem_map]
@@ -734,23 +890,23 @@ theorem initialIndex_spec (s : Seq) (idx : Idx) (h : initialIndex s = some idx) 
     every restriction — whatever the order and the overlaps of the restrictions -/
 theorem fromRestrictions_exact (s : Seq) (rs : List Restriction) (sp : Space)
     (hrs : ∀ r ∈ rs, RestrOK s.length r) (h : fromRestrictions s rs = .ok sp) :
-    sp.index.length = s.length ∧ Blocks sp.index ∧ Full sp.index ∧
+    sp.index.length = s.length ∧ Blocks sp.index ∧ Full sp.index ∧ VarsNodup sp.index ∧
     ∀ t : Seq, t.length = s.length → (∀ ch ∈ t, ch ∈ DNA) → (Accepts sp.index t ↔ Allowed rs t) := by
   simp only [fromRestrictions] at h
   split at h
   · cases h
   rename_i idx0 h0
-  obtain ⟨b0, f0, l0, a0⟩ := initialIndex_spec s idx0 h0
+  obtain ⟨b0, f0, n0, l0, a0⟩ := initialIndex_spec s idx0 h0
   split at h
   · cases h
   rename_i idx1 h1
   have hsp : sp = ofIndex idx1 := by injection h with h; exact h.symm
   have hperm : ∀ r, r ∈ rs.mergeSort restrictionLe ↔ r ∈ rs := fun r => List.mem_mergeSort
-  obtain ⟨b1, f1, l1, a1⟩ := foldRestrictions_spec _ idx0 idx1 b0 f0
+  obtain ⟨b1, f1, n1, l1, a1⟩ := foldRestrictions_spec _ idx0 idx1 b0 f0 n0
     (fun r hr => by rw [l0]; exact hrs r ((hperm r).1 hr)) h1
   have hidx : sp.index = idx1 := by rw [hsp]; simp [ofIndex]
   rw [hidx]
-  refine ⟨by rw [l1, l0], b1, f1, ?_⟩
+  refine ⟨by rw [l1, l0], b1, f1, n1, ?_⟩
   intro t ht hdna
   rw [a1 t (by rw [l0]; exact ht) hdna]
   constructor
@@ -758,5 +914,89 @@ theorem fromRestrictions_exact (s : Seq) (rs : List Restriction) (sp : Space)
     exact hall r ((hperm r).2 hr)
   · intro hall
     exact ⟨a0 t ht hdna, fun r hr => hall r ((hperm r).1 hr)⟩
+
+end Dna.Fold
+
+namespace Dna.Fold
+open Dna Choice Merge Space
+
+theorem dc_replicate_same (c : Choice) (k : Nat) (L : Idx) :
+    dedupConsecutive (List.replicate k (some c) ++ L) (some c) = dedupConsecutive L (some c) := by
+  induction k with
+  | zero => rfl
+  | succ k ih =>
+    rw [List.replicate_succ, List.cons_append, dedupConsecutive]
+    simp [ih]
+
+theorem dc_block (c : Choice) (k : Nat) (L : Idx) (last : Option Choice) (h : last ≠ some c) :
+    dedupConsecutive (List.replicate (k + 1) (some c) ++ L) last = c :: dedupConsecutive L (some c) := by
+  rw [List.replicate_succ, List.cons_append, dedupConsecutive]
+  have : (last == some c) = false := by simpa using h
+  simp only [this, Bool.false_eq_true, if_false]
+  rw [dc_replicate_same]
+
+theorem drop_split (idx : Idx) (a e : Nat) (h : a ≤ e) : idx.drop a = under idx a e ++ idx.drop e := by
+  simp only [under]
+  have : idx.drop e = (idx.drop a).drop (e - a) := by rw [List.drop_drop]; congr 1; omega
+  rw [this, List.take_append_drop]
+
+/-- the choices list of an index tiled by whole blocks, read from a block boundary on -/
+theorem dc_tiles (idx : Idx) (hB : Blocks idx) (hF : Full idx) :
+    ∀ (k a : Nat) (last : Option Choice), idx.length - a ≤ k → a ≤ idx.length →
+      (∀ c : Choice, idx[a]? = some (some c) → c.start = a ∧ last ≠ some c) →
+      Contig a (dedupConsecutive (idx.drop a) last) ∧ stopOf a (dedupConsecutive (idx.drop a) last) = idx.length ∧
+      ∀ c ∈ dedupConsecutive (idx.drop a) last, ∃ i : Nat, idx[i]? = some (some c) := by
+  intro k
+  induction k with
+  | zero =>
+    intro a last hk ha _
+    have : a = idx.length := by omega
+    subst this
+    simp [dedupConsecutive, Contig, stopOf]
+  | succ k ih =>
+    intro a last hk ha hbd
+    by_cases hend : a = idx.length
+    · subst hend
+      simp [dedupConsecutive, Contig, stopOf]
+    · have halt : a < idx.length := by omega
+      obtain ⟨c, hc⟩ := hF a halt
+      obtain ⟨hcs, hlast⟩ := hbd c hc
+      have ok := hB a c hc
+      obtain ⟨m, hm⟩ : ∃ m, c.stop - a = m + 1 := ⟨c.stop - a - 1, by have := ok.hi; omega⟩
+      have hsplit : idx.drop a = List.replicate (m + 1) (some c) ++ idx.drop c.stop := by
+        rw [drop_split idx a c.stop (by have := ok.hi; omega), under_const idx c a c.stop ok.all ok.lo (Nat.le_refl _), hm]
+      rw [hsplit, dc_block c m _ last hlast]
+      have hnext : ∀ c' : Choice, idx[c.stop]? = some (some c') → c'.start = c.stop ∧ (some c : Option Choice) ≠ some c' := by
+        intro c' hc'
+        have ok' := hB c.stop c' hc'
+        have hne : c' ≠ c := by intro h; have := ok'.hi; rw [h] at this; omega
+        refine ⟨?_, fun h => hne (by injection h with h; exact h.symm)⟩
+        by_contra hneq
+        have hlt : c'.start < c.stop := by have := ok'.lo; omega
+        have hpos : c.start < c.stop := by have := ok.lo; have := ok.hi; omega
+        have e1 := ok'.all (c.stop - 1) (by omega) (by have := ok'.hi; omega)
+        have e0 := ok.all (c.stop - 1) (by omega) (by omega)
+        rw [e0] at e1
+        exact hne (by simpa using e1.symm)
+      obtain ⟨i1, i2, i3⟩ := ih c.stop (some c) (by have := ok.hi; omega) ok.inb hnext
+      refine ⟨⟨hcs, by have := ok.lo; have := ok.hi; omega, i1⟩, by simpa [stopOf] using i2, ?_⟩
+      intro x hx
+      rcases List.mem_cons.1 hx with rfl | hx
+      · exact ⟨a, hc⟩
+      · exact i3 x hx
+
+/-- **the choices of a tiled index tile the sequence**: contiguous from 0 to the length, each a non-empty segment with
+    variants of the segment's length -/
+theorem choicesList_tiles (sp : Space) (hB : Blocks sp.index) (hF : Full sp.index) :
+    Contig 0 sp.choicesList ∧ stopOf 0 sp.choicesList = sp.index.length ∧
+    ∀ c ∈ sp.choicesList, c.start < c.stop ∧ c.stop ≤ sp.index.length ∧ ∀ v ∈ c.variants, v.length = c.stop - c.start := by
+  obtain ⟨h1, h2, h3⟩ := dc_tiles sp.index hB hF sp.index.length 0 none (by omega) (by omega)
+    (fun c hc => ⟨by have := (hB 0 c hc).lo; omega, by simp⟩)
+  simp only [List.drop_zero] at h1 h2 h3
+  refine ⟨h1, h2, ?_⟩
+  intro c hc
+  obtain ⟨i, hi⟩ := h3 c hc
+  have ok := hB i c hi
+  exact ⟨by have := ok.lo; have := ok.hi; omega, ok.inb, ok.len⟩
 
 end Dna.Fold
